@@ -8,7 +8,7 @@ import re
 
 from ..cfg import cfg_of
 from ..model import AnalysisError, call_name, calls_in, dotted, norm, walk_no_nested
-from .. import rules, sfdl
+from .. import inline, rules, sfdl
 from . import c03
 
 META = {
@@ -50,13 +50,16 @@ def _sent_primaries(repo, cname):
                 for sub in ast.walk(c):
                     if isinstance(sub, ast.Call) and (call_name(sub) or "") == "self.stream_function" and len(sub.args) == 2 and all(isinstance(a, ast.Constant) for a in sub.args):
                         out.setdefault((sub.args[0].value, sub.args[1].value), []).append(m.qualname)
-        # s2f41 = self.stream_function(2, 41)() ... send_and_waitfor_response(s2f41)
-        defs = rules.single_assignments(m.node)
-        for c in calls_in(m.node):
-            if (call_name(c) or "") in ("self.send_and_waitfor_response", "self.send_stream_function") and c.args and isinstance(c.args[0], ast.Name) and c.args[0].id in defs:
-                for sub in ast.walk(defs[c.args[0].id]):
-                    if isinstance(sub, ast.Call) and (call_name(sub) or "") == "self.stream_function" and len(sub.args) == 2:
-                        out.setdefault((sub.args[0].value, sub.args[1].value), []).append(m.qualname)
+        # s2f41 = self.stream_function(2, 41)() ... send_and_waitfor_response(s2f41); request chosen per branch, then sent once
+        cfg = cfg_of(m.node)
+        for n in cfg.real_nodes():
+            for c in n.calls:
+                if (call_name(c) or "") in ("self.send_and_waitfor_response", "self.send_stream_function") and c.args and not isinstance(c.args[0], ast.Call):
+                    for v, _ in rules.reaching_values(m.node, cfg, n, c.args[0]):
+                        for sub in ast.walk(v):
+                            if isinstance(sub, ast.Call) and (call_name(sub) or "") == "self.stream_function" and len(sub.args) == 2 and all(isinstance(a, ast.Constant) for a in sub.args):
+                                if m.qualname not in out.get((sub.args[0].value, sub.args[1].value), []):
+                                    out.setdefault((sub.args[0].value, sub.args[1].value), []).append(m.qualname)
     return out
 
 
@@ -199,14 +202,15 @@ def check_roles(ctx):
     h = repo.method("GemHandler", "_on_s01f13", inherited=False)
     mr = repo.method("GemHandler", "_on_message_received", inherited=False)
     for f_, label in ((h, "COMMUNICATING"), (mr, "WAIT_CRA")):
-        cfg = cfg_of(f_.node)
+        fn = inline.expanded(ctx, f_, keep={"_handle_stream_function"})
+        cfg = cfg_of(fn)
         bodies = {}
         for n in cfg.real_nodes():
             for c in n.calls:
-                if isinstance(c.func, ast.Call) and (call_name(c.func) or "") == "self.stream_function" and [norm(x) for x in c.func.args] == ["1", "14"]:
-                    host = any(norm(t) == "self._is_host" and v for t, v in cfg.dominating_conditions(n))
-                    eq = any(norm(t) == "self._is_host" and not v for t, v in cfg.dominating_conditions(n)) or not host
-                    bodies["host" if host else "equipment"] = norm(c.args[0]) if c.args else ""
+                if isinstance(c.func, ast.Call) and (call_name(c.func) or "") == "self.stream_function" and [norm(x) for x in c.func.args] == ["1", "14"] and c.args:
+                    for v, cs in rules.reaching_values(fn, cfg, n, c.args[0]):
+                        host = any(norm(t) == "self._is_host" and tv for t, tv in cs)
+                        bodies["host" if host else "equipment"] = norm(v)
         ok = set(bodies) == {"host", "equipment"} and "'MDLN': []" in bodies["host"] and "self._mdln" in bodies["equipment"]
         ctx.ob("C20.T3", f_.qualname, ok, f"S1F13 received in {label} is answered by both roles with the role's S1F14 body" if ok else f"S1F14 bodies in {label}: {bodies}", key="s1f14 " + label, where=f_.where)
     eqh = repo.method("GemEquipmentHandler", "__init__", inherited=False)
